@@ -227,8 +227,23 @@ def adopt_model_tokens(impl, model):
     return canon_impl(impl)
 
 
+def strip_flags(model):
+    """Remove the known-class flags the model driver appends to a restart line."""
+    return model.replace("!drift", "").replace("!stale", "")
+
+
+def model_classes(model_lines):
+    """Known-finding classes the extracted model predicates (id_drift, stale_tail_b) flag for a case."""
+    cls = []
+    if any("!drift" in m for m in model_lines):
+        cls.append("id-drift")
+    if any("!stale" in m for m in model_lines):
+        cls.append("stale-tail")
+    return cls
+
+
 def lines_equal(impl, model):
-    model = model.replace("!drift", "")
+    model = strip_flags(model)
     if impl == model or canon_impl(impl) == model:
         return True
     if impl.startswith("[") and model.startswith("["):
